@@ -80,7 +80,42 @@ fn scalars() -> Vec<ScalarValue> {
     out.push(ScalarValue::List(ScalarValue::new_list_nullable(&[ScalarValue::Int32(Some(1)), ScalarValue::Int32(None)], &DataType::Int32)));
     out.push(ScalarValue::List(ScalarValue::new_list_nullable(&[], &DataType::Utf8)));
     out.push(ScalarValue::Dictionary(Box::new(DataType::Int8), Box::new(ScalarValue::Utf8(Some("d".into())))));
+    out.push(ScalarValue::Dictionary(Box::new(DataType::UInt16), Box::new(ScalarValue::Int64(None))));
+    out.push(ScalarValue::LargeList(ScalarValue::new_large_list(&[ScalarValue::Utf8(Some("x".into())), ScalarValue::Utf8(None)], &DataType::Utf8)));
+    out.push(ScalarValue::List(ScalarValue::new_list_nullable(&[ScalarValue::List(ScalarValue::new_list_nullable(&[ScalarValue::Int64(Some(1))], &DataType::Int64))],
+        &DataType::List(Arc::new(Field::new("item", DataType::Int64, true))))));
+    if let Ok(s) = ScalarValue::try_from(&DataType::Struct(Fields::from(vec![Field::new("a", DataType::Int32, true)]))) {
+        out.push(s);
+    }
+    {
+        use arrow::array::{ArrayRef, Int32Array, StringArray, StructArray};
+        let st = StructArray::from(vec![
+            (Arc::new(Field::new("a", DataType::Int32, true)), Arc::new(Int32Array::from(vec![Some(7)])) as ArrayRef),
+            (Arc::new(Field::new("b", DataType::Utf8, true)), Arc::new(StringArray::from(vec![None::<&str>])) as ArrayRef),
+        ]);
+        out.push(ScalarValue::Struct(Arc::new(st)));
+    }
+    out.push(ScalarValue::Decimal32(Some(-123), 7, 2));
+    out.push(ScalarValue::Decimal64(Some(123456789), 12, 3));
+    out.push(ScalarValue::Decimal128(None, 38, 10));
+    out.push(ScalarValue::Time32Second(Some(86399)));
+    out.push(ScalarValue::Time64Nanosecond(Some(1)));
+    out.push(ScalarValue::DurationMicrosecond(Some(-5)));
+    out.push(ScalarValue::IntervalYearMonth(Some(-13)));
+    out.push(ScalarValue::TimestampSecond(Some(-1), Some("America/New_York".into())));
+    out.push(ScalarValue::TimestampMillisecond(None, Some("UTC".into())));
+    out.push(ScalarValue::Date64(Some(86_400_000)));
+    out.push(ScalarValue::BinaryView(Some(vec![1, 2])));
+    out.push(ScalarValue::LargeBinary(Some(vec![])));
+    out.push(ScalarValue::Float16(Some(half_from_f32(1.5))));
+    out.push(ScalarValue::Float64(Some(f64::NAN)));
+    out.push(ScalarValue::UInt8(Some(255)));
+    out.push(ScalarValue::Int8(Some(-128)));
     out
+}
+
+fn half_from_f32(x: f32) -> half::f16 {
+    half::f16::from_f32(x)
 }
 
 fn exprs() -> Vec<Expr> {
@@ -110,7 +145,7 @@ fn exprs() -> Vec<Expr> {
         Expr::Case(Case::new(Some(Box::new(a.clone())), vec![(Box::new(lit(1i64)), Box::new(lit("one"))), (Box::new(lit(2i64)), Box::new(lit("two")))], None)),
         Expr::Alias(Alias::new(a.clone(), Some("q"), "x")), a.clone().alias("plain"),
         abs(a.clone()), coalesce(vec![a.clone(), lit(0i64)]), nullif(a.clone(), lit(1i64)), concat(vec![b.clone(), lit("z")]),
-        Expr::IsNotNull(Box::new(a.clone())), a.clone().eq(placeholder("$1")),
+        Expr::IsNotNull(Box::new(a.clone())), Expr::IsNull(Box::new(b.clone())), a.clone().eq(placeholder("$1")),
         Expr::BinaryExpr(datafusion::logical_expr::BinaryExpr::new(Box::new(a.clone()), datafusion::logical_expr::Operator::IsDistinctFrom, Box::new(b.clone()))),
         Expr::BinaryExpr(datafusion::logical_expr::BinaryExpr::new(Box::new(a.clone()), datafusion::logical_expr::Operator::IsNotDistinctFrom, Box::new(b.clone()))),
         Expr::BinaryExpr(datafusion::logical_expr::BinaryExpr::new(Box::new(b.clone()), datafusion::logical_expr::Operator::StringConcat, Box::new(lit("s")))),
@@ -118,6 +153,90 @@ fn exprs() -> Vec<Expr> {
         Expr::BinaryExpr(datafusion::logical_expr::BinaryExpr::new(Box::new(a.clone()), datafusion::logical_expr::Operator::BitwiseShiftLeft, Box::new(lit(2i64)))),
         sum(a.clone()), count(lit(1i64)), max(b.clone()),
     ];
+    // every binary operator variant
+    {
+        use datafusion::logical_expr::{BinaryExpr, Operator::*};
+        for op in [Eq, NotEq, Lt, LtEq, Gt, GtEq, Plus, Minus, Multiply, Divide, Modulo, And, Or, IsDistinctFrom, IsNotDistinctFrom, RegexMatch,
+            RegexIMatch, RegexNotMatch, RegexNotIMatch, LikeMatch, ILikeMatch, NotLikeMatch, NotILikeMatch, BitwiseAnd, BitwiseOr, BitwiseXor,
+            BitwiseShiftRight, BitwiseShiftLeft, StringConcat, AtArrow, ArrowAt, Arrow, LongArrow, HashArrow, HashLongArrow, AtAt, IntegerDivide,
+            HashMinus, AtQuestion, Question, QuestionAnd, QuestionPipe] {
+            v.push(Expr::BinaryExpr(BinaryExpr::new(Box::new(a.clone()), op, Box::new(b.clone()))));
+        }
+    }
+    // sort options, all four combinations, inside an aggregate's ORDER BY and a window's ORDER BY
+    for (asc, nf) in [(true, true), (true, false), (false, true), (false, false)] {
+        if let Ok(e) = datafusion::functions_aggregate::expr_fn::array_agg(a.clone()).order_by(vec![b.clone().sort(asc, nf)]).build() {
+            v.push(e);
+        }
+        if let Ok(e) = row_number().order_by(vec![a.clone().sort(asc, nf)]).build() {
+            v.push(e);
+        }
+    }
+    // window frames: units x start bound x end bound
+    {
+        use WindowFrameBound::*;
+        let u = |n: Option<u64>| ScalarValue::UInt64(n);
+        for units in [WindowFrameUnits::Rows, WindowFrameUnits::Range, WindowFrameUnits::Groups] {
+            for (st, en) in [(Preceding(u(None)), CurrentRow), (Preceding(u(Some(2))), Following(u(Some(1)))), (CurrentRow, Following(u(None))),
+                (Preceding(u(Some(3))), Preceding(u(Some(1)))), (Following(u(Some(1))), Following(u(Some(4)))), (CurrentRow, CurrentRow),
+                (Preceding(u(None)), Following(u(None)))] {
+                if let Ok(e) = sum(a.clone()).order_by(vec![a.clone().sort(true, false)]).window_frame(WindowFrame::new_bounds(units, st.clone(), en.clone())).build() {
+                    v.push(e);
+                }
+            }
+        }
+    }
+    // null treatment / distinct / filter on window and aggregate calls
+    for nt in [datafusion::logical_expr::expr::NullTreatment::IgnoreNulls, datafusion::logical_expr::expr::NullTreatment::RespectNulls] {
+        if let Ok(e) = lag(a.clone(), None, None).order_by(vec![a.clone().sort(true, true)]).null_treatment(nt).build() {
+            v.push(e);
+        }
+        if let Ok(e) = datafusion::functions_aggregate::expr_fn::last_value(a.clone(), vec![b.clone().sort(true, true)]).null_treatment(nt).build() {
+            v.push(e);
+        }
+    }
+    if let Ok(e) = sum(a.clone()).filter(b.clone().is_not_null()).order_by(vec![a.clone().sort(true, false)]).partition_by(vec![b.clone()]).build() {
+        v.push(e); // window aggregate with FILTER
+    }
+    // grouping sets, placeholders with / without types, outer references, unnest, metadata
+    {
+        use datafusion::logical_expr::GroupingSet;
+        v.push(Expr::GroupingSet(GroupingSet::Rollup(vec![a.clone(), b.clone()])));
+        v.push(Expr::GroupingSet(GroupingSet::Cube(vec![a.clone(), b.clone()])));
+        v.push(Expr::GroupingSet(GroupingSet::GroupingSets(vec![vec![a.clone()], vec![b.clone(), a.clone()], vec![]])));
+        v.push(Expr::Placeholder(datafusion::logical_expr::expr::Placeholder::new_with_field("$2".into(), Some(Arc::new(Field::new("p", DataType::Int32, true))))));
+        v.push(Expr::Placeholder(datafusion::logical_expr::expr::Placeholder::new_with_field("$name".into(), Some(Arc::new(Field::new("p", DataType::Utf8, false))))));
+        v.push(placeholder("$3"));
+        v.push(Expr::OuterReferenceColumn(Arc::new(Field::new("o", DataType::Int64, true)), datafusion::common::Column::new(Some("outer_t"), "o")));
+        v.push(Expr::Unnest(datafusion::logical_expr::expr::Unnest::new(col("arr"))));
+        let mut md = std::collections::HashMap::new();
+        md.insert("unit".to_string(), "m".to_string());
+        v.push(a.clone().alias_with_metadata("with_md", Some(md.clone().into())));
+        v.push(Expr::Literal(ScalarValue::Int32(Some(5)), Some(md.into())));
+        v.push(Expr::Alias(Alias::new(b.clone(), None::<&str>, "noqual")));
+        v.push(col("cat.sch.tbl.c"));
+        v.push(Expr::Column(datafusion::common::Column::new(Some("sch.tbl"), "c")));
+        v.push(Expr::Column(datafusion::common::Column::new_unqualified("Mixed Case")));
+        v.push(Expr::ScalarVariable(Arc::new(Field::new("v", DataType::Int64, true)), vec!["@v".to_string()]));
+    }
+    // cast targets incl. time zones / decimals / nested
+    for dt in [DataType::Timestamp(TimeUnit::Nanosecond, Some("+05:30".into())), DataType::Timestamp(TimeUnit::Second, None), DataType::Decimal128(10, 3),
+        DataType::Decimal256(50, 0), DataType::Date32, DataType::Utf8View, DataType::LargeUtf8, DataType::List(Arc::new(Field::new("item", DataType::Int64, true))),
+        DataType::Dictionary(Box::new(DataType::Int16), Box::new(DataType::Utf8)), DataType::Interval(IntervalUnit::MonthDayNano), DataType::Duration(TimeUnit::Millisecond)] {
+        v.push(Expr::Cast(Cast::new(Box::new(a.clone()), dt.clone())));
+        v.push(Expr::TryCast(TryCast::new(Box::new(a.clone()), dt)));
+    }
+    // IN list with non-literal entries, nested CASE, LIKE variants (negated x case_insensitive x escape)
+    v.push(a.clone().in_list(vec![b.clone(), a.clone() + lit(1i64), lit(3i64)], false));
+    v.push(a.clone().in_list(vec![], true));
+    for neg in [false, true] {
+        for ci in [false, true] {
+            for esc in [None, Some('#')] {
+                v.push(Expr::Like(Like::new(neg, Box::new(b.clone()), Box::new(lit("a_%")), esc, ci)));
+                v.push(Expr::SimilarTo(Like::new(neg, Box::new(b.clone()), Box::new(lit("(a|b)+")), esc, ci)));
+            }
+        }
+    }
     for built in [
         sum(a.clone()).distinct().build(),
         sum(a.clone()).filter(b.clone().is_not_null()).build(),
@@ -175,7 +294,7 @@ pub fn main() {
                 if !(same && same_type) {
                     bad += 1;
                 }
-                res.push(json!({"kind": kind, "expr": format!("{e:?}"), "equal": same && same_type, "decoded": if same && same_type { None } else { Some(format!("{d:?}")) }}));
+                res.push(json!({"kind": kind, "variant": tag_of(&e), "expr": format!("{e:?}"), "equal": same && same_type, "decoded": if same && same_type { None } else { Some(format!("{d:?}")) }}));
             }
             Err(x) => {
                 bad += 1;
@@ -185,6 +304,37 @@ pub fn main() {
     }
     write_ndjson(&arg("--out").expect("--out"), &res);
     summary(json!({"cases": n, "enc_err": enc_err, "bad": bad}));
+}
+
+fn tag_of(e: &Expr) -> String {
+    match e {
+        Expr::Literal(s, md) => format!("Literal:{}{}", s.data_type(), if s.is_null() { ":null" } else { "" }) + if md.is_some() { ":metadata" } else { "" },
+        Expr::BinaryExpr(b) => format!("BinaryExpr:{:?}", b.op),
+        Expr::Like(l) => format!("Like:neg={}:ci={}:esc={}", l.negated, l.case_insensitive, l.escape_char.is_some()),
+        Expr::SimilarTo(l) => format!("SimilarTo:neg={}:ci={}:esc={}", l.negated, l.case_insensitive, l.escape_char.is_some()),
+        Expr::Between(b) => format!("Between:neg={}", b.negated),
+        Expr::InList(l) => format!("InList:neg={}", l.negated),
+        Expr::Case(c) => format!("Case:base={}:else={}", c.expr.is_some(), c.else_expr.is_some()),
+        Expr::Cast(c) => format!("Cast:{}", c.field.data_type()),
+        Expr::TryCast(c) => format!("TryCast:{}", c.field.data_type()),
+        Expr::GroupingSet(g) => format!("GroupingSet:{}", match g { datafusion::logical_expr::GroupingSet::Rollup(_) => "Rollup", datafusion::logical_expr::GroupingSet::Cube(_) => "Cube", _ => "Sets" }),
+        Expr::Placeholder(p) => format!("Placeholder:typed={}", p.field.is_some()),
+        Expr::Alias(a) => format!("Alias:rel={}:md={}", a.relation.is_some(), a.metadata.is_some()),
+        Expr::AggregateFunction(f) => format!("AggregateFunction:distinct={}:filter={}:order_by={}:nt={:?}", f.params.distinct, f.params.filter.is_some(), !f.params.order_by.is_empty(), f.params.null_treatment),
+        Expr::WindowFunction(w) => format!("WindowFunction:{:?}:{}:{}:part={}:ord={}:nt={:?}:filter={}:distinct={}", w.params.window_frame.units,
+            bound_tag(&w.params.window_frame.start_bound), bound_tag(&w.params.window_frame.end_bound), !w.params.partition_by.is_empty(),
+            w.params.order_by.iter().map(|s| format!("{}{}", if s.asc { "a" } else { "d" }, if s.nulls_first { "f" } else { "l" })).collect::<Vec<_>>().join(""),
+            w.params.null_treatment, w.params.filter.is_some(), w.params.distinct),
+        other => other.variant_name().to_string(),
+    }
+}
+
+fn bound_tag(b: &WindowFrameBound) -> String {
+    match b {
+        WindowFrameBound::Preceding(v) => if v.is_null() { "UP".into() } else { "P".into() },
+        WindowFrameBound::Following(v) => if v.is_null() { "UF".into() } else { "F".into() },
+        WindowFrameBound::CurrentRow => "CR".into(),
+    }
 }
 
 fn prost_bytes(p: &datafusion_proto::protobuf::LogicalExprNode) -> Vec<u8> {
